@@ -64,6 +64,19 @@ type session struct {
 	closes  bool
 }
 
+// hugeClass returns the class of the first frame that declares >= 512 MiB.
+func (s *session) hugeClass() string {
+	if s.hs.Huge {
+		return s.hs.Class
+	}
+	for _, p := range s.parsedF {
+		if p.Huge {
+			return p.Class
+		}
+	}
+	return ""
+}
+
 func (s *session) stream() []byte {
 	var b []byte
 	for _, f := range s.Frames {
@@ -97,15 +110,20 @@ type world struct {
 	baseFds int
 	tree    map[string]string
 
+	last     stats
+	haveLast bool
+
 	crashedClass map[string]int
-	seenCrash    map[string]bool
+	hugeSeen     map[string]bool // classes whose >=512 MiB declaration already produced an alloc violation here
 	allocBound   uint64
 	failed       bool
 }
 
+var t0 = time.Now()
+
 func (w *world) logf(format string, args ...interface{}) {
 	if os.Getenv("VERIF_C14_DEBUG") != "" {
-		fmt.Printf("[%s] %s\n", w.name, fmt.Sprintf(format, args...))
+		fmt.Printf("%8.3f [%s] %s\n", time.Since(t0).Seconds(), w.name, fmt.Sprintf(format, args...))
 	}
 }
 
@@ -231,6 +249,8 @@ func (w *world) storeDir() string { return filepath.Join(w.dir, fmt.Sprintf("gen
 // start launches a fresh child, connects the canary and records baselines.
 func (w *world) start() error {
 	w.gen++
+	w.logf("starting child gen %d", w.gen)
+	defer func() { w.logf("child started") }()
 	ch, err := startChild(w.bin, filepath.Join(w.dir, fmt.Sprintf("gen%d", w.gen)), w.spec())
 	if err != nil {
 		return err
@@ -249,11 +269,24 @@ func (w *world) start() error {
 	if ok, why := w.canaryCheck(0); !ok {
 		return fmt.Errorf("canary does not work on a fresh child: %s", why)
 	}
-	w.base, err = ch.stats()
-	if err != nil {
-		return err
+	// baseline = a goroutine count that stayed the same over several consecutive
+	// samples (helper goroutines of the canary's handshake wind down first)
+	same := 0
+	for i := 0; i < 400 && same < 6; i++ {
+		st, err := ch.stats()
+		if err != nil {
+			return err
+		}
+		if i > 0 && st.Goroutines == w.base.Goroutines {
+			same++
+		} else {
+			same = 0
+		}
+		w.base = st
+		time.Sleep(3 * time.Millisecond)
 	}
 	w.baseFds = ch.fds()
+	w.last, w.haveLast = w.base, true
 	skip := ""
 	if w.role == "agent" {
 		skip = w.geoms[1].Digest.Hex()
@@ -312,6 +345,7 @@ type outcome struct {
 	Unresponsive      bool
 	Crashed           bool
 	AllocDelta        uint64
+	Quiesced          bool
 	Delivered         bool // the hostile bytes reached a live child past the point where they are parsed
 	Served            []string
 	Problems          []problem
@@ -384,10 +418,14 @@ func (w *world) describe(s *session) map[string]interface{} {
 func (w *world) runSession(s *session, upto int) outcome {
 	var o outcome
 	g := w.geoms[s.Target]
-	pre, err := w.ch.stats()
-	if err != nil {
-		o.Crashed = !w.ch.alive()
-		return o
+	pre := w.last
+	if !w.haveLast {
+		var err error
+		pre, err = w.ch.stats()
+		if err != nil {
+			o.Crashed = !w.ch.alive() || w.ch.waitExit(10*time.Second)
+			return o
+		}
 	}
 	w.writeInput(s, "") // on disk BEFORE anything is sent
 	pc, err := dialPeer(w.ch.port)
@@ -404,7 +442,7 @@ func (w *world) runSession(s *session, upto int) outcome {
 		ci := s.Index % w.geoms[0].N
 		ok, why := w.canaryCheck(ci)
 		if !ok {
-			if !w.ch.alive() || w.ch.waitExit(2*time.Second) {
+			if !w.ch.alive() || w.ch.waitExit(10*time.Second) {
 				o.Crashed = true
 				return o
 			}
@@ -421,13 +459,33 @@ func (w *world) runSession(s *session, upto int) outcome {
 		} else {
 			w.run.Count("canary_checks_ok", 1)
 		}
-		post, err := w.ch.stats()
-		if err != nil {
-			o.Crashed = !w.ch.alive() || w.ch.waitExit(2*time.Second)
-			return o
+		// Synchronise: the connection's read/write/feed goroutines are gone (and
+		// its fd is closed) only after everything queued on it was dispatched, so
+		// a crash caused by this session cannot surface during the next one. The
+		// same observation is the per-session goroutine/fd-leak monitor.
+		deadline := time.Now().Add(20 * time.Second)
+		if s.hugeClass() != "" {
+			// a >=512 MiB declaration that is honoured keeps the connection's
+			// goroutine busy clearing memory for a long time; the child is replaced
+			// instead of waiting for it (see restartUnquiesced)
+			deadline = time.Now().Add(3 * time.Second)
 		}
-		o.AllocDelta = post.TotalAlloc - pre.TotalAlloc
-		return o
+		for {
+			post, err := w.ch.stats()
+			if err != nil {
+				o.Crashed = !w.ch.alive() || w.ch.waitExit(10*time.Second)
+				return o
+			}
+			if post.Goroutines <= w.base.Goroutines && w.ch.fds() <= w.baseFds {
+				o.Quiesced = true
+			}
+			if o.Quiesced || time.Now().After(deadline) {
+				o.AllocDelta = post.TotalAlloc - pre.TotalAlloc
+				w.last, w.haveLast = post, true
+				return o
+			}
+			time.Sleep(2 * time.Millisecond)
+		}
 	}
 
 	if err := pc.send(s.Handshake); err != nil {
@@ -547,86 +605,73 @@ func principal(s *session) string {
 }
 
 // handleCrash attributes a crash to an input class and restarts the child.
-func (w *world) handleCrash(s *session, prev *session) error {
+// Sessions are synchronous (see runSession), so the crash belongs to s; when s
+// carries several hostile frames the culprit is found by replaying growing
+// prefixes of its stream on fresh children.
+func (w *world) handleCrash(s *session) error {
 	site := parseCrash(w.ch.stderrPath)
 	w.ch.kill()
 	w.run.Count("child_crashes", 1)
 	culprit := principal(s)
 	how := "single hostile frame in the session"
-	sess := s
 	if err := w.start(); err != nil {
 		return err
 	}
-	key := site.Func + "|" + culprit
-	if len(s.hostile) != 1 || !w.seenCrash[key] {
-		// Confirm / bisect by replaying on fresh children: the session alone, then
-		// (if several hostile frames) growing prefixes of its stream.
-		confirmed := false
-		o := w.runSession(s, -1)
-		if o.Crashed || !w.ch.alive() {
-			confirmed = true
-			site = parseCrash(w.ch.stderrPath)
-			w.ch.kill()
-			if err := w.start(); err != nil {
-				return err
+	if len(s.hostile) > 1 {
+		how = "several hostile frames: the whole session is the witness (prefix replay did not reproduce)"
+		culprit = "stream"
+		off := 0
+		for _, p := range s.parsedF {
+			off += p.Consumed
+			if !p.Hostile {
+				continue
 			}
-			how = "confirmed by replaying the session alone on a fresh child"
-		} else if prev != nil {
-			o := w.runSession(prev, -1)
+			o := w.runSession(s, off)
 			if o.Crashed || !w.ch.alive() {
-				confirmed = true
-				sess, culprit = prev, principal(prev)
+				culprit = p.Class
 				site = parseCrash(w.ch.stderrPath)
 				w.ch.kill()
 				if err := w.start(); err != nil {
 					return err
 				}
-				how = "the crash was the delayed effect of the previous session (confirmed by replay)"
-			}
-		}
-		if !confirmed {
-			culprit = "unattributed"
-			how = "not reproduced by replaying the last two sessions alone"
-		} else if len(sess.hostile) > 1 {
-			// bisect: shortest prefix (in parsed frames) that crashes
-			off := 0
-			for _, p := range sess.parsedF {
-				off += p.Consumed
-				if !p.Hostile {
-					continue
-				}
-				o := w.runSession(sess, off)
-				if o.Crashed || !w.ch.alive() {
-					culprit = p.Class
-					site = parseCrash(w.ch.stderrPath)
-					w.ch.kill()
-					if err := w.start(); err != nil {
-						return err
-					}
-					how += "; culprit frame found by replaying growing prefixes"
-					break
-				}
+				how = "culprit frame found by replaying growing prefixes of the stream on fresh children"
+				break
 			}
 		}
 	}
-	w.seenCrash[site.Func+"|"+culprit] = true
 	w.crashedClass[culprit]++
 	w.run.Distinct("crash_sites", site.Func)
 	sig := w.signature(site.Component, culprit, "")
-	w.run.Violation(sig, fmt.Sprintf("%s|%d", w.name, sess.Index), map[string]interface{}{
+	w.run.Violation(sig, fmt.Sprintf("%s|%d", w.name, s.Index), map[string]interface{}{
 		"symptom": site.Kind, "headline": site.Headline, "first_kraken_frame": site.Func, "at": site.File,
-		"stderr_excerpt": site.Excerpt, "attribution": how, "input": w.describe(sess),
+		"stderr_excerpt": site.Excerpt, "attribution": how, "input": w.describe(s),
 		"role": w.role, "bandwidth_limiter_enabled": w.limiter,
 	})
 	return nil
+}
+
+func (w *world) allocLimit(s *session) uint64 {
+	nFrames := uint64(len(s.parsedF) + 2)
+	return w.allocBound*nFrames + 256*uint64(len(s.Handshake)+len(s.stream()))
+}
+
+func (w *world) allocExceeds(s *session, o outcome) bool { return o.AllocDelta > w.allocLimit(s) }
+
+func declaresLarge(s *session) bool {
+	for _, c := range s.hostile {
+		if strings.Contains(c, "oversized") {
+			return true
+		}
+	}
+	return false
 }
 
 func (w *world) report(s *session, o outcome) {
 	class := principal(s)
 	comp := componentOf(class)
 	caseID := fmt.Sprintf("%s|%d", w.name, s.Index)
-	nFrames := uint64(len(s.parsedF) + 2)
-	if o.AllocDelta > w.allocBound*nFrames {
+	bound := w.allocLimit(s)
+	if o.AllocDelta > bound {
 		// name the frame that declares the large size when there are several
 		for _, c := range s.hostile {
 			if strings.Contains(c, "oversized") {
@@ -635,9 +680,12 @@ func (w *world) report(s *session, o outcome) {
 			}
 		}
 		w.run.Count("alloc_violations", 1)
+		if hc := s.hugeClass(); hc != "" {
+			w.hugeSeen[hc] = true
+		}
 		w.run.Violation(w.signature(comp, class, "alloc"), caseID, map[string]interface{}{
-			"symptom": "allocation", "total_alloc_delta_bytes": o.AllocDelta, "bound_bytes": w.allocBound * nFrames,
-			"per_frame_bound": "8 x (blob length + 32 KiB)", "input": w.describe(s),
+			"symptom": "allocation", "total_alloc_delta_bytes": o.AllocDelta, "bound_bytes": bound,
+			"bound": "8 x (blob length + 32 KiB) per frame + 256 x bytes actually sent", "input": w.describe(s),
 			"role": w.role, "bandwidth_limiter_enabled": w.limiter,
 		})
 	}
@@ -659,9 +707,44 @@ func (w *world) report(s *session, o outcome) {
 	}
 }
 
+// restartUnquiesced: the child still has extra goroutines / fds long after the
+// session's connection was closed. If a connection goroutine is still inside
+// an allocation made for this session (a 2 GiB make+clear can take that long on
+// a loaded machine) that is the allocation finding, not a leak; anything else
+// is reported as a possible leak (inconclusive: only a time bound says so). The
+// child is replaced so the next sessions are judged from a clean baseline.
+func (w *world) restartUnquiesced(s *session) error {
+	dump := ""
+	if m, err := w.ch.call(map[string]interface{}{"op": "goroutines"}); err == nil {
+		dump, _ = m["dump"].(string)
+	}
+	allocating := false
+	for _, blk := range strings.Split(dump, "\n\n") {
+		if (strings.Contains(blk, "conn.(*Conn).readPayload") || strings.Contains(blk, "conn.handshakeFromP2PMessage") ||
+			strings.Contains(blk, "unmarshalBinary") || strings.Contains(blk, "conn.readMessage")) && !strings.Contains(blk, "internal/poll") {
+			allocating = true
+		}
+	}
+	if allocating {
+		w.run.Count("restarts_allocation_still_in_progress", 1)
+	} else {
+		d := filepath.Join(ev.Root(), "replays", "C14")
+		_ = os.MkdirAll(d, 0o755)
+		fn := filepath.Join(d, fmt.Sprintf("leak-%s-s%d.txt", w.name, s.Index))
+		_ = os.WriteFile(fn, []byte(dump), 0o644)
+		st, _ := w.ch.stats()
+		w.run.Inconclusive(fmt.Sprintf("%s session %d (%s): goroutines %d (baseline %d) / fds %d (baseline %d) did not return to baseline within the watchdog after the connection was closed; dump in %s",
+			w.name, s.Index, principal(s), st.Goroutines, w.base.Goroutines, w.ch.fds(), w.baseFds, fn))
+	}
+	w.ch.kill()
+	return w.start()
+}
+
 // quiesce: after all hostile connections are closed, goroutines and fds must
 // return to the baseline taken with only the canary connected.
 func (w *world) quiesce(tag string) {
+	w.logf("quiesce %s", tag)
+	defer w.logf("quiesce done")
 	deadline := time.Now().Add(30 * time.Second)
 	var st stats
 	var fds int
@@ -765,7 +848,6 @@ func (w *world) runAll(r *rand.Rand, n int, replayIdx int) {
 			}
 		}
 	}()
-	var prev *session
 	for k := 0; k < n; k++ {
 		s := w.genSession(r, k)
 		if replayIdx >= 0 && k != replayIdx {
@@ -797,7 +879,15 @@ func (w *world) runAll(r *rand.Rand, n int, replayIdx int) {
 			w.run.Count("sessions_skipped_known_crash_class", 1)
 			continue
 		}
+		if hc := s.hugeClass(); hc != "" && w.hugeSeen[hc] {
+			// same idea for >=512 MiB declarations: against code that honours them
+			// every one commits and clears that much memory in the child
+			w.run.Count("sessions_skipped_known_huge_alloc_class", 1)
+			continue
+		}
+		w.logf("session %d %s %v", k, s.Kind, s.hostile)
 		o := w.runSession(s, -1)
+		w.logf("session %d done: %+v", k, o)
 		for _, c := range s.hostile {
 			w.run.Count("class/"+c, 1)
 			w.run.Distinct("hostile_classes", w.role+"/"+c)
@@ -812,6 +902,7 @@ func (w *world) runAll(r *rand.Rand, n int, replayIdx int) {
 		case o.Unresponsive:
 			w.run.Count("outcome_unresponsive", 1)
 			w.logf("unresponsive: %s", ev.JSON(w.describe(s)))
+			w.run.Distinct("unresponsive_classes", principal(s))
 		default:
 			w.run.Count("outcome_left_waiting_for_bytes", 1)
 		}
@@ -820,17 +911,43 @@ func (w *world) runAll(r *rand.Rand, n int, replayIdx int) {
 			w.run.Sample(w.describe(s))
 		}
 		if o.Crashed || !w.ch.alive() {
-			if err := w.handleCrash(s, prev); err != nil {
+			if err := w.handleCrash(s); err != nil {
 				w.run.Inconclusive(w.name + ": cannot restart child: " + err.Error())
 				return
 			}
-			prev = nil
 			continue
 		}
+		if w.allocExceeds(s, o) && !declaresLarge(s) {
+			// No frame of the session declares a large size: make sure the excess
+			// belongs to this session (and is not the tail of an earlier session's
+			// allocation) by playing it once more on the same child.
+			o2 := w.runSession(s, -1)
+			if o2.Crashed || !w.ch.alive() {
+				if err := w.handleCrash(s); err != nil {
+					w.run.Inconclusive(w.name + ": cannot restart child: " + err.Error())
+					return
+				}
+				continue
+			}
+			if !w.allocExceeds(s, o2) {
+				w.run.Count("alloc_excess_not_reproduced_on_replay", 1)
+				o.AllocDelta = 0
+			}
+		}
 		w.report(s, o)
-		prev = s
-		if k%200 == 199 {
-			w.quiesce(fmt.Sprintf("s%d", k))
+		if !o.Quiesced {
+			w.run.Count("sessions_not_quiesced_within_watchdog", 1)
+			w.logf("session %d not quiesced", k)
+			if err := w.restartUnquiesced(s); err != nil {
+				w.run.Inconclusive(w.name + ": cannot restart child: " + err.Error())
+				return
+			}
+			if os.Getenv("VERIF_C14_DEBUG") != "" {
+				if m, err := w.ch.call(map[string]interface{}{"op": "goroutines"}); err == nil {
+					st, _ := w.ch.stats()
+					w.logf("base %d/%d now %d/%d\n%v", w.base.Goroutines, w.baseFds, st.Goroutines, w.ch.fds(), m["dump"])
+				}
+			}
 		}
 	}
 	if !w.ch.alive() {
@@ -881,7 +998,7 @@ func TestC14(t *testing.T) {
 	dir := ev.TempDir(t, "c14-")
 	bin := buildChild(t, dir)
 
-	perWorld := run.N(700, 50000)
+	perWorld := run.N(375, 50000)
 	replayWorld, replayIdx := "", -1
 	if rc := run.ReplayCase(); rc != "" {
 		parts := strings.Split(rc, "|")
@@ -899,11 +1016,14 @@ func TestC14(t *testing.T) {
 				if replayWorld != "" && replayWorld != name {
 					continue
 				}
+				if o := os.Getenv("VERIF_C14_ONLY"); o != "" && o != name {
+					continue // development aid
+				}
 				r := run.Rand("world/" + name)
 				w := &world{
 					name: name, role: role, limiter: limiter, run: run, bin: bin,
 					dir:          filepath.Join(dir, name),
-					crashedClass: map[string]int{}, seenCrash: map[string]bool{},
+					crashedClass: map[string]int{}, hugeSeen: map[string]bool{},
 				}
 				_ = os.MkdirAll(w.dir, 0o755)
 				maxLen := 0
